@@ -8951,6 +8951,10 @@ def aten_scatter_add(
     """scatter_add(Tensor self, int dim, Tensor index, Tensor src) -> Tensor"""
 
     # if rank(self) == 0 will lead ORT failed, skipped
+    if len(index.shape) == 0:
+        index = op.Unsqueeze(index, [0])
+    if len(src.shape) == 0:
+        src = op.Unsqueeze(src, [0])
     return op.ScatterElements(self, index, src, axis=dim, reduction="add")
 
 
@@ -8982,6 +8986,11 @@ def aten_scatter_reduce(
         self = op.Reshape(self, neg_1)
         index = op.Reshape(index, neg_1)
         src = op.Reshape(src, neg_1)
+    else:
+        if len(index.shape) == 0:
+            index = op.Unsqueeze(index, [0])
+        if len(src.shape) == 0:
+            src = op.Unsqueeze(src, [0])
 
     if not include_self:
         # onnx standard always assume the value from self is part of the reduction.
